@@ -129,7 +129,8 @@ def medium_cases():
         x[0] = (x[0] * 48271) % 2147483647
         return x[0] % m
 
-    layouts = [((9, 5),), ((17, 7), (17, 4)), ((33, 6), (33, 5), (33, 3)), ((64, 9), (64, 2)), ((40, 8), (40, 8)), ((24, 4), (24, 5), (24, 3), (24, 2))]
+    layouts = [((9, 5),), ((17, 7), (17, 4)), ((33, 6), (33, 5), (33, 3)), ((64, 9), (64, 2)), ((40, 8), (40, 8)), ((24, 4), (24, 5), (24, 3), (24, 2)),
+               ((60, 2), (60, 7)), ((70, 3), (70, 6), (70, 2)), ((48, 2), (48, 2), (48, 9))]
     for lay in layouts:
         for variant in range(3):
             dims = []
